@@ -381,6 +381,10 @@ func stripTsig(msg []byte) ([]byte, *TSIG, error) {
 	if rr == nil {
 		return nil, nil, ErrNoSig
 	}
+	if off != len(msg) {
+		// RFC 8945 5.2: whatever follows the TSIG record is not covered by the MAC.
+		return nil, nil, &Error{err: "TSIG is not the last record"}
+	}
 	return msg[:tsigoff], rr, nil
 }
 
